@@ -93,24 +93,82 @@ theorem runBody_other (r : Inst) (a : Nat) (hr : ∀ pa ∈ r, pa.2 ≠ a) :
     unfold runBody at *
     rw [List.foldl_cons, ih, applyWrite_other r h w a hr]
 
-/-- when the two arms that serve value receivers copy (`dest.Set`), the interpreter's receiver
-    storage is Go's -/
-theorem recvStorage_who (F : Facts) (hF : F.recvBind.ptrToVal = .set ∧ F.recvBind.same = .set)
-    (D : Decls) (owner : Nat) (m : Meth) (srcPtr : Bool) (inst : Inst) (h : Heap) :
-    recvStorage .yaegi F D owner m srcPtr inst h = recvStorage .go F D owner m srcPtr inst h := by
-  unfold recvStorage valueArm
-  cases m.ptr <;> cases srcPtr <;> simp [hF.1, hF.2]
+/-- a copy of something fresh is fresh -/
+theorem copy_of_fresh (D : Decls) (t : Nat) (inst : Inst) (h : Heap) (r0 : Inst × Heap)
+    (h0 : CopyInv D t inst h r0) : CopyInv D t inst h (copyInst D t r0.1 r0.2) := by
+  obtain ⟨⟨ext0, he0⟩, hc0⟩ := h0
+  obtain ⟨⟨ext1, he1⟩, hc1⟩ := copyInst_inv D t r0.1 r0.2
+  refine ⟨⟨ext0 ++ ext1, by rw [he1, he0, List.append_assoc]⟩, ?_⟩
+  intro pa hpa
+  rcases hc1 pa hpa with hfresh | ⟨hin, hv⟩
+  · left
+    rw [he0, List.length_append] at hfresh
+    omega
+  · rcases hc0 pa hin with hf | ⟨hin0, _⟩
+    · exact Or.inl hf
+    · exact Or.inr ⟨hin0, hv⟩
 
-theorem runMeth_who (F : Facts) (hF : F.recvBind.ptrToVal = .set ∧ F.recvBind.same = .set)
+/-- when both steps of the binding copy a value receiver (the extracted values), the interpreter's
+    receiver storage is Go's -/
+def bindCopies (F : Facts) : Prop :=
+  F.recvBind.ptrToVal = .set ∧ F.recvBind.same = .set ∧ F.recvBind.call = .set
+
+instance (F : Facts) : Decidable (bindCopies F) := by unfold bindCopies; infer_instance
+
+theorem bindRecv_who (F : Facts) (hF : bindCopies F) (D : Decls) (owner : Nat) (m : Meth) (srcPtr : Bool) (inst : Inst) (h : Heap) :
+    bindRecv .yaegi F D owner m srcPtr inst h = bindRecv .go F D owner m srcPtr inst h := by
+  unfold bindRecv valueArm applyBind
+  cases m.ptr <;> cases srcPtr <;> simp [hF.1, hF.2.1]
+
+theorem enterRecv_who (F : Facts) (hF : bindCopies F) (D : Decls) (owner : Nat) (m : Meth) (r0 : Inst) (h : Heap) :
+    enterRecv .yaegi F D owner m r0 h = enterRecv .go F D owner m r0 h := by
+  unfold enterRecv applyBind
+  cases m.ptr <;> simp [hF.2.2]
+
+theorem recvStorage_who (F : Facts) (hF : bindCopies F) (D : Decls) (owner : Nat) (m : Meth) (srcPtr : Bool) (inst : Inst) (h : Heap) :
+    recvStorage .yaegi F D owner m srcPtr inst h = recvStorage .go F D owner m srcPtr inst h := by
+  unfold recvStorage
+  rw [bindRecv_who F hF, enterRecv_who F hF]
+
+theorem runMeth_who (F : Facts) (hF : bindCopies F)
     (D : Decls) (owner : Nat) (m : Meth) (srcPtr : Bool) (inst : Inst) (s : St) :
     runMeth .yaegi F D owner m srcPtr inst s = runMeth .go F D owner m srcPtr inst s := by
   unfold runMeth
   rw [recvStorage_who F hF]
 
-theorem runSel_who (F : Facts) (hF : F.recvBind.ptrToVal = .set ∧ F.recvBind.same = .set)
+theorem runBound_who (F : Facts) (hF : bindCopies F) (D : Decls) (owner : Nat) (m : Meth) (r0 : Inst) (s : St) :
+    runBound .yaegi F D owner m r0 s = runBound .go F D owner m r0 s := by
+  unfold runBound
+  rw [enterRecv_who F hF]
+
+theorem runSel_who (F : Facts) (hF : bindCopies F)
     (D : Decls) (r : Sel) (t : Nat) (opPtr : Bool) (recv : Inst) (s : St) :
     runSel .yaegi F D r t opPtr recv s = runSel .go F D r t opPtr recv s := by
   unfold runSel runHit
   cases r <;> simp [runMeth_who F hF]
+
+/-- the storage of a value receiver is fresh (new cells, or cells the operand reaches through an
+    embedded pointer) whenever one of the two steps that apply copies -/
+theorem recvStorage_fresh (w : Who) (F : Facts) (D : Decls) (owner : Nat) (m : Meth) (hm : m.ptr = false) (srcPtr : Bool)
+    (inst : Inst) (h : Heap)
+    (hF : w = .go ∨ F.recvBind.call = .set ∨ (F.recvBind.ptrToVal = .set ∧ F.recvBind.same = .set)) :
+    CopyInv D owner inst h (recvStorage w F D owner m srcPtr inst h) := by
+  unfold recvStorage bindRecv enterRecv
+  simp only [hm, Bool.false_eq_true, if_false]
+  cases w with
+  | go => exact copy_of_fresh D owner inst h _ (copyInst_inv D owner inst h)
+  | yaegi =>
+    simp only
+    generalize hv : valueArm F srcPtr = arm
+    generalize hc : F.recvBind.call = c
+    have hcc := copy_of_fresh D owner inst h _ (copyInst_inv D owner inst h)
+    have hc1 := copyInst_inv D owner inst h
+    cases arm <;> cases c <;> simp only [applyBind] <;> first | exact hcc | exact hc1 | skip
+    -- both steps alias: excluded
+    rcases hF with h1 | h1 | ⟨h1, h2⟩
+    · cases h1
+    · rw [hc] at h1; cases h1
+    · unfold valueArm at hv
+      cases srcPtr <;> simp [h1, h2] at hv
 
 end YaegiVerif.Proofs.C05
